@@ -7,6 +7,7 @@ import (
 	"fmt"
 	"io"
 	"sort"
+	"strings"
 	"testing/iotest"
 
 	"github.com/ipfs/go-cid"
@@ -26,7 +27,7 @@ func init() {
 	register(&mon.Prop{
 		ID:    "C17",
 		Level: "exploration",
-		Rule: "token sets T with |T| in {0,1,2,5,40} (mixed delegations/invocations, all key kinds, insertion order permuted); FULL matrix 4 formats x {bytes, stream} writer x {bytes, stream} reader for every T: reading must succeed, the key set must equal {CID of sealed bytes} (computed by the harness), every token must equal the direct decode of its sealed bytes and be retrievable through GetToken / GetDelegation / GetInvocation / GetAll*. " +
+		Rule: "token sets T with |T| in {0,1,2,5,40} (mixed delegations/invocations, all key kinds, insertion order permuted); FULL matrix 4 formats x {bytes, stream} writer x {bytes, stream} reader for every T, plus a size sweep (a token padded so that its CAR section has every length within +-3 of 512, 1024, ... 16384 (65536 in thorough) bytes, in both insertion orders): reading must succeed, the key set must equal {CID of sealed bytes} (computed by the harness), every token must equal the direct decode of its sealed bytes and be retrievable through GetToken / GetDelegation / GetInvocation / GetAll*. " +
 			"single-entry corruptions of containers built by the harness's own CAR/CBOR encoders: each entry in turn bit-flipped in payload and in signature (CAR: with the stale CID and with a recomputed CID), replaced by non-token bytes, truncated; CAR: entry under another entry's CID, section length off by one, the file cut right after a section's length prefix / inside its CID / inside its data / inside the header; CBOR: the file cut at several offsets, CBOR: wrong version key, extra key, non-bytes entry, non-map root; reading must fail, never return a partial or mislabelled set. " +
 			"non-trivial = |T|>=2; distinct = (set digest, format, writer, reader) / (set digest, corruption, entry).",
 		Assumptions: []string{
@@ -38,7 +39,7 @@ func init() {
 		MinEvals:    floor(1800, 50000),
 		MinDistinct: floor(800, 20000),
 		RequiredCells: func(string) []string {
-			cells := []string{"foreign-cid/raw-codec", "foreign-cid/sha2-512", "foreign-cid/cidv0", "size=0", "size=1", "size=2", "size=5", "size=40", "get/delegation", "get/invocation", "get/all"}
+			cells := []string{"size-sweep", "foreign-cid/raw-codec", "foreign-cid/sha2-512", "foreign-cid/cidv0", "size=0", "size=1", "size=2", "size=5", "size=40", "get/delegation", "get/invocation", "get/all"}
 			for _, f := range containerNames {
 				for _, wv := range []string{"bytes", "stream"} {
 					for _, rv := range []string{"bytes", "stream"} {
@@ -244,6 +245,7 @@ func buildCborContainer(version string, entries []ref.V, extra bool) []byte {
 }
 
 func runC17(w *mon.W) {
+	c17SizeSweep(w)
 	r := w.Rng
 	sizes := []int{0, 1, 2, 5, 40}
 	nsets := w.Share(w.Pick(60, 2000))
@@ -486,6 +488,108 @@ func runC17(w *mon.W) {
 		}
 		if rd, err := container.FromCbor(buildCborContainer("ctn-v1", good, false)); err != nil || len(rd) != len(uniqueCids(set)) {
 			w.Inconclusive(fmt.Sprintf("C17 harness CBOR container encoder is not read back by the library (err=%v)", err))
+		}
+	}
+}
+
+// sizedToken builds a sealed delegation whose sealed length is exactly want bytes (padding a
+// metadata string); ok=false if that length cannot be hit.
+func sizedToken(w *mon.W, want int) (sealedTok, bool) {
+	iss := gen.Ed(4)
+	mk := func(pad int) (sealedTok, error) {
+		s := gen.RandomSpec(w.Rng, "dlg", gen.SpecOpts{Issuer: iss, Minimal: true})
+		s.Nonce = make([]byte, 12)
+		s.Aud = gen.Ed(5)
+		s.Cmd = "/a"
+		s.Meta = ref.Map(ref.E("pad", ref.Str(strings.Repeat("p", pad))))
+		tk, err := s.Build()
+		if err != nil {
+			return sealedTok{}, err
+		}
+		sealed, _, err := tk.ToSealed(iss.Priv)
+		if err != nil {
+			return sealedTok{}, err
+		}
+		t0, _, err := token.FromSealed(sealed)
+		if err != nil {
+			return sealedTok{}, err
+		}
+		return sealedTok{s, sealed, ref.CID(sealed), gen.Fields(t0)}, nil
+	}
+	base, err := mk(0)
+	if err != nil || want <= len(base.sealed) {
+		return sealedTok{}, false
+	}
+	pad := want - len(base.sealed)
+	for try := 0; try < 6; try++ {
+		t, err := mk(pad)
+		if err != nil {
+			return sealedTok{}, false
+		}
+		if len(t.sealed) == want {
+			return t, true
+		}
+		pad += want - len(t.sealed)
+		if pad < 0 {
+			return sealedTok{}, false
+		}
+	}
+	return sealedTok{}, false
+}
+
+// c17SizeSweep: containers holding a token whose CAR section (36-byte CID + sealed bytes) has
+// every length within +-3 of a power-of-two boundary, through the full writer x reader matrix.
+func c17SizeSweep(w *mon.W) {
+	other := makeSealedSet(w, 1, 0, true)
+	idx := 0
+	for _, b := range []int{512, 1024, 2048, 4096, 8192, 16384, 32768, 65536} {
+		if !w.Thorough() && b > 16384 {
+			continue
+		}
+		for d := -3; d <= 3; d++ {
+			idx++
+			if !w.Mine(idx) {
+				continue
+			}
+			section := b + d
+			t, ok := sizedToken(w, section-36)
+			if !ok {
+				w.Count("size-sweep-length-not-reachable", 1)
+				continue
+			}
+			set := []sealedTok{t, other[0]}
+			for _, order := range [][]int{{0, 1}, {1, 0}} {
+				wr := container.NewWriter()
+				for _, i := range order {
+					wr.AddSealed(set[i].cid, set[i].sealed)
+				}
+				for format := 0; format < 4; format++ {
+					for _, wstream := range []bool{false, true} {
+						data, err := writeContainer(wr, format, wstream)
+						if err != nil {
+							w.Violate("write-fails/size-sweep/"+containerNames[format], fmt.Sprintf("writing a container with a %d-byte section failed: %v", section, err), map[string]any{"section": section})
+							continue
+						}
+						for _, rstream := range []bool{false, true} {
+							rd, err := readContainer(data, format, rstream, func(b []byte) io.Reader { return bytes.NewReader(b) })
+							w.Eval(1)
+							w.Cover("size-sweep")
+							w.Distinct("size-sweep", section, format, wstream, rstream)
+							where := fmt.Sprintf("%s/section=%d", containerNames[format], section)
+							desc := func() map[string]any {
+								return map[string]any{"format": containerNames[format], "section_bytes": section, "sealed_bytes": len(t.sealed), "writer_stream": wstream, "reader_stream": rstream, "token_hex": mon.Hex(t.sealed)}
+							}
+							if err != nil {
+								m := desc()
+								m["error"] = err.Error()
+								w.Violate("roundtrip/read-fails/size-sweep/"+containerNames[format], fmt.Sprintf("a %s container holding a token whose section is %d bytes cannot be read back: %v", containerNames[format], section, err), m)
+								continue
+							}
+							checkReader(w, rd, set, where, desc)
+						}
+					}
+				}
+			}
 		}
 	}
 }
